@@ -76,6 +76,9 @@ func (m *ModelServer) ListHails(_ context.Context, request *traits.ListHailsRequ
 	}
 
 	lastKey := pageToken.GetLastResourceName() // the key() of the last item we sent
+	if request.GetPageSize() < 0 {
+		return nil, status.Error(codes.InvalidArgument, "page_size must not be negative")
+	}
 	pageSize := capPageSize(int(request.GetPageSize()))
 
 	sortedItems := m.model.ListHails(resource.WithReadMask(request.ReadMask))
